@@ -164,6 +164,7 @@ func cryptServerFlows(e *cryptEnv) {
 func cryptFlows(e *cryptEnv) {
 	r := e.c.R
 	cryptServerFlows(e)
+	cryptSmallOrder(e)
 	n := e.c.Pick(24, 400)
 	engine.ForEach(n, engine.Workers(), func(i int) {
 		variant := []string{"same-object-enrolled-again", "old-object-enrolled-again-after-being-recorded"}[i%2]
@@ -271,4 +272,72 @@ func cryptFlows(e *cryptEnv) {
 			}
 		}
 	})
+}
+
+// cryptSmallOrder: key sources whose recorded peer public key is a small-order point of curve25519 (a record an
+// attacker on the path of a fetch response, or anyone with write access to one field, can produce). Such a point
+// takes every private key to the same, publicly known value, so nothing may be derived from it: two key sources
+// with unrelated private keys must not open each other's messages, and a message sealed by somebody who has no
+// key at all (AES-GCM under 32 zero bytes) must not open. The unchanged tree refuses to derive a key (crypto/ecdh
+// reports the low-order point).
+func cryptSmallOrder(e *cryptEnv) {
+	r := e.c.R
+	points := [][]byte{
+		make([]byte, 32),
+		append([]byte{1}, make([]byte, 31)...),
+		{0xe0, 0xeb, 0x7a, 0x7c, 0x3b, 0x41, 0xb8, 0xae, 0x16, 0x56, 0xe3, 0xfa, 0xf1, 0x9f, 0xc4, 0x6a, 0xda, 0x09, 0x8d, 0xeb, 0x9c, 0x32, 0xb1, 0xfd, 0x86, 0x62, 0x05, 0x16, 0x5f, 0x49, 0xb8, 0x00},
+		{0x5f, 0x9c, 0x95, 0xbc, 0xa3, 0x50, 0x8c, 0x24, 0xb1, 0xd0, 0xb1, 0x55, 0x9c, 0x83, 0xef, 0x5b, 0x04, 0x44, 0x5c, 0xc4, 0x58, 0x1c, 0x8e, 0x86, 0xd8, 0x22, 0x4e, 0xdd, 0xd0, 0x9f, 0x11, 0x57},
+		append(append([]byte{0xec}, bytesOf(0xff, 30)...), 0x7f),
+	}
+	k := world.NewKeys()
+	msg := cryptMsg("FetchNodeCredentialsRequest", "rand", 4242)
+	for pi, pt := range points {
+		for _, side := range []string{"server-record", "node-credentials"} {
+			cs := cryptCase{Kind: "small-order-peer-key", Sender: fmt.Sprintf("%s, point #%d", side, pi), Ct: pi}
+			mk := func() nodeenrollment.X25519KeyProducer {
+				priv := world.NewX25519().Priv
+				if side == "server-record" {
+					return &types.NodeInformation{Id: k.KeyID, CertificatePublicKeyPkix: k.Pkix, CertificatePublicKeyType: types.KEYTYPE_ED25519,
+						EncryptionPublicKeyBytes: pt, EncryptionPublicKeyType: types.KEYTYPE_X25519,
+						ServerEncryptionPrivateKeyBytes: priv, ServerEncryptionPrivateKeyType: types.KEYTYPE_X25519}
+				}
+				return &types.NodeCredentials{Id: string(nodeenrollment.CurrentId), CertificatePublicKeyPkix: k.Pkix, CertificatePrivateKeyPkcs8: k.Pkcs8, CertificatePrivateKeyType: types.KEYTYPE_ED25519,
+					EncryptionPrivateKeyBytes: priv, EncryptionPrivateKeyType: types.KEYTYPE_X25519,
+					ServerEncryptionPublicKeyBytes: pt, ServerEncryptionPublicKeyType: types.KEYTYPE_X25519}
+			}
+			a, b := mk(), mk()
+			var env []byte
+			var eerr error
+			p, st := engine.Guard(func() { env, eerr = nodeenrollment.EncryptMessage(e.ctx, msg, a) })
+			r.Eval(engine.J(cs), true)
+			if p != nil {
+				r.Violation("panic:"+engine.LibraryFrame(st), fmt.Sprintf("EncryptMessage panicked on a key source with a small-order peer key: %v", p), cs)
+				continue
+			}
+			if eerr != nil || len(env) == 0 {
+				r.Count("small_order:no_key_derived", 1)
+				continue
+			}
+			got := cryptNewMsg("FetchNodeCredentialsRequest")
+			var derr error
+			p, st = engine.Guard(func() { derr = nodeenrollment.DecryptMessage(e.ctx, env, b, got) })
+			switch {
+			case p != nil:
+				r.Violation("panic:"+engine.LibraryFrame(st), fmt.Sprintf("DecryptMessage panicked on a key source with a small-order peer key: %v", p), cs)
+			case derr == nil:
+				r.Violation("opened-with-other-key:small-order-peer-key", fmt.Sprintf("two key sources (%s) with unrelated private keys and the same small-order peer public key (point #%d) open each other's messages: the derived secret depends on no private key", side, pi), cs)
+			default:
+				r.Count("small_order:other_private_key_refused", 1)
+			}
+		}
+	}
+	r.Require("small_order:no_key_derived", 1)
+}
+
+func bytesOf(b byte, n int) []byte {
+	out := make([]byte, n)
+	for i := range out {
+		out[i] = b
+	}
+	return out
 }
